@@ -101,6 +101,23 @@ nacl.utils.random = _nacl_random
 
 import spake2  # noqa: E402,F401  (binds entropy_f=os.urandom -> our seam)
 
+# twisted.internet.task.Cooperator stops a tick after 10 ms of WALL-CLOCK time
+# (task._Timer): replace the predicate by "one work unit per tick", which is a
+# legal (slow machine) schedule and deterministic.
+from twisted.internet import task as _task  # noqa: E402
+
+
+class _OneUnitTimer:
+    def __call__(self):
+        return True
+
+
+_task._Timer = _OneUnitTimer
+_task.Cooperator.__init__.__defaults__ = tuple(
+    _OneUnitTimer if d is getattr(_task, "_Timer", None) or
+    getattr(d, "__name__", "") == "_Timer" else d
+    for d in _task.Cooperator.__init__.__defaults__)
+
 # -- deterministic hashes for objects the code keeps in sets --------------------
 _serials = itertools.count(1)
 
